@@ -257,6 +257,43 @@ def parse (s : String) : ParseResult :=
   | .reject => .reject
   | .unsupported => .unsupported
 
+/-! ### the documented grammar inside the accepted language
+
+participle matches literals on the token value after unquoting, and the scanner skips Go comments,
+so the implementation accepts more than the documented grammar: a quoted string may stand for a
+keyword or punctuation (`"NOT" attributes:x`), and comments may appear anywhere.  `docVerdict`
+classifies an accepted input. -/
+
+/-- does the text contain a Go comment outside a string literal? -/
+def hasCommentAux : Bool → List Char → Bool
+  | _, [] => false
+  | true, '\\' :: _ :: r => hasCommentAux true r
+  | true, '"' :: r => hasCommentAux false r
+  | true, _ :: r => hasCommentAux true r
+  | false, '"' :: r => hasCommentAux true r
+  | false, '/' :: '/' :: _ => true
+  | false, '/' :: '*' :: _ => true
+  | false, _ :: r => hasCommentAux false r
+
+/-- in an accepted token list a string token is a name or a value iff it follows `:` `.` `=` `,` -/
+def strPositionsOk : Option Tok → List Tok → Bool
+  | _, [] => true
+  | prev, .str s :: r =>
+    (match prev with
+     | some (.sym c) => c == ':' || c == '.' || c == '=' || c == ','
+     | _ => false) && strPositionsOk (some (.str s)) r
+  | _, t :: r => strPositionsOk (some t) r
+
+inductive DocVerdict | doc | quotedKeyword | comment
+deriving DecidableEq, Repr
+
+/-- for an input the implementation accepts: is it a sentence of the documented grammar? -/
+def docVerdict (s : String) : DocVerdict :=
+  if hasCommentAux false s.toList then .comment
+  else match lex s with
+    | .ok ts => if strPositionsOk none ts then .doc else .quotedKeyword
+    | _ => .doc
+
 /-! ### printer (`AsFilter`) -/
 
 /-- `formatAttrName`'s identifier test on ASCII; the empty name is **not** an identifier
